@@ -35,6 +35,7 @@ type Finding struct {
 
 type Ctx struct {
 	progress int64 // unix nanos of the last counter / report activity (stall watchdog)
+	maxGap   int64 // longest interval without such activity (nanos), reported in the evidence
 	Prop     string
 	Tier     string
 	Seed     int64
@@ -170,7 +171,14 @@ func (c *Ctx) StartStallWatchdog() {
 	}()
 }
 
-func (c *Ctx) touch() { atomic.StoreInt64(&c.progress, time.Now().UnixNano()) }
+func (c *Ctx) touch() {
+	now := time.Now().UnixNano()
+	if last := atomic.SwapInt64(&c.progress, now); last != 0 {
+		if gap := now - last; gap > atomic.LoadInt64(&c.maxGap) {
+			atomic.StoreInt64(&c.maxGap, gap)
+		}
+	}
+}
 
 func (c *Ctx) Add(key string, n int) {
 	c.touch()
@@ -270,6 +278,7 @@ func (c *Ctx) Finish() int {
 	}
 	cov["exhaustive"] = exhaustive
 	cov["caps_hit"] = c.capsHit
+	cov["longest_interval_without_progress_s"] = float64(atomic.LoadInt64(&c.maxGap)) / 1e9
 	var kh []string
 	for s, n := range c.knownHit {
 		kh = append(kh, fmt.Sprintf("%s x%d", s, n))
